@@ -341,6 +341,15 @@ class Optic:
                 geometry.c = [c * scale_factor ** (1 - 2 * (i + 1))
                               for i, c in enumerate(geometry.c)]
 
+        # Scale the lengths held by solves and pickups, which are re-applied
+        # by update()
+        for solve in self.solves.solves:
+            if hasattr(solve, 'height'):
+                solve.height = solve.height * scale_factor
+        for pickup in self.pickups.pickups:
+            if pickup.attr_type in ('radius', 'thickness'):
+                pickup.offset = pickup.offset * scale_factor
+
         # Scale object heights
         if self.field_type == 'object_height':
             for field in self.fields.fields:
